@@ -100,7 +100,50 @@ def gen(ctx):
     return items
 
 
+# Subsystem names of real-world-impossible but protocol-legal length (beyond 64 KiB: longer than any buffer the connection starts
+# with), the idle reply arriving in two parts with or without a request in between: implementation only (harness-internal server,
+# paused clock), judged from the arguments alone.
+def bigevt_cases(tier):
+    out = []
+    for n in (10, 5000, 65536, 70000, 200000) + ((1048576 + 5,) if tier == "thorough" else ()):
+        for lines in (1, 2):
+            total = 16 * (lines - 1) + 9 + n + 4
+            for cut in sorted({1, 9, 16 * (lines - 1) + 9 + n // 2, 16 * (lines - 1) + 9 + n - 1, total - 4, total - 3, total - 1} | ({40000} if n > 50000 else set())):
+                for req in (0, 1):
+                    out.append(f"bigevt {n} {cut} {req} {lines}")
+    return out
+
+
+def judge_bigevt(case, out):
+    _, n, cut, req, lines = case.split(" ")
+    n, lines = int(n), int(lines)
+    name = bytes(97 + i % 23 for i in range(n)).decode()
+    ev = f'SubsystemChange(Other("{name}"))'
+    if len(ev) > 120:
+        ev = f"{ev[:40]}..(len={len(ev)},sum={sum(ev.encode())})"
+    want_ev = ",".join(["SubsystemChange(Player)"] * (lines - 1) + [ev])
+    want_res = "ok" if req == "1" else ""
+    m = __import__("re").match(r"events=(.*) results=(.*) session=(.*)$", out)
+    if not m:
+        return f"no result: {out[:200]}"
+    if m.group(1) != want_ev:
+        return (f"the server reported {lines - 1} x player and one subsystem with a name of {n} bytes, the reply arriving in two parts (cut after {cut} bytes"
+                f"{', a request issued in between' if req == '1' else ''}); events delivered: {m.group(1)[:300] or '(none)'}; expected {want_ev[:200]}")
+    if m.group(2) != want_res:
+        return f"the request issued while the long idle reply was arriving returned {m.group(2)[:200]}"
+    return None
+
+
 def run(ctx, only=None):
+    if only is not None and only and isinstance(only[0], str):
+        bad = 0
+        for c, o in zip(only, ctx.run_impl(only)):
+            print("case:", c, "\nimpl:", o[:600])
+            m = judge_bigevt(c, o)
+            if m:
+                bad += 1
+                print(f"VIOLATION property=C04 replay=(this case) {m}")
+        return 1 if bad else 0
     items = only if only is not None else gen(ctx)
     scheds = [s for s, _ in items]
     results = L.run_schedules(ctx, scheds)
@@ -125,22 +168,31 @@ def run(ctx, only=None):
             fails.append(Failure(s.model_case(), f"the server reported {names} (in its idle replies, in this order); the event stream delivered {dec(evs)} ({kind})",
                                  extra={"impl_case": r["impl_case"], "names": names}))
     nties = 0
+    nbig = 0
     if only is None:
         tf, nties = L.run_ties(ctx, 25, 500)
         fails += tf
+        big = bigevt_cases(ctx.tier)
+        nbig = len(big)
+        for c, o in zip(big, ctx.run_impl(big)):
+            m = judge_bigevt(c, o)
+            if m:
+                fails.append(Failure(c, m, extra={"bigevt": True}))
     if only is not None:
         for r in results:
             print("labels:", " ".join(r["sched"].labels)[:1500], "\nops   :", " ".join(r["ops"])[:1500], "\nimpl  :", r["impl_raw"][:2500], "\nmodel :", " ".join(r["model_segs"])[:2500])
     inside, why = L.fragment_membership(ctx, scheds)
     dist = {"in_refinement_fragment": inside, "outside_fragment_first_label_kind": why, "schedules": len(scheds), "changes_reported": sum(len(n) for _, n in items if n), "events_delivered": total_events,
             "requests": sum(sum(1 for l in s.labels if l[0] in "ic") for s in scheds),
-            "partial_deliveries": sum(sum(1 for l in s.labels if l[0] == "D" and l != "D0") for s in scheds)}
+            "partial_deliveries": sum(sum(1 for l in s.labels if l[0] == "D" and l != "D0") for s in scheds), "long_name_runs": nbig}
     return finish(
-        ctx, evaluations=len(scheds) + nties, distinct_nontrivial=nontrivial,
+        ctx, evaluations=len(scheds) + nties + nbig, distinct_nontrivial=nontrivial,
         rule="random schedules mixing subsystem changes (known names, unknown names, case variants, repeats; several pending at once so that one reply "
              "carries several changed lines), requests issued at every stage of an idle reply's delivery (replies cut after 1,2,5,9,17,18,19.. bytes), "
              "server steps and clock advances, then a flush; oracle: the names delivered by ConnectionEvents::next equal, in order, the names the "
-             "simulated server was told to report (each exactly once, verbatim); non-trivial = >= 2 changes with requests interleaved",
+             "simulated server was told to report (each exactly once, verbatim); non-trivial = >= 2 changes with requests interleaved.  Plus, "
+             "implementation only: subsystem names of 10 bytes .. 200 000 bytes (1 MiB thorough) as the first or second changed line, the reply arriving "
+             "in two parts cut at 7-8 places, with and without a request issued in between (harness-internal server, paused clock)",
         samples=[" ".join(scheds[0].labels)[:300], " ".join(scheds[-1].labels)[:300]], distribution=dist, oracle_failures=fails, disagreements=dis,
     )
 
@@ -148,6 +200,8 @@ def run(ctx, only=None):
 def replay(ctx, payload):
     if payload.get("extra", {}).get("tie"):
         return L.replay_tie(ctx, payload)
+    if any(str(c).startswith("bigevt") for c in payload.get("cases", [])):
+        return run(ctx, only=[c for c in payload["cases"] if c.startswith("bigevt")])
     items = []
     names = payload.get("extra", {}).get("names")
     for c in payload.get("cases", []):
